@@ -621,6 +621,14 @@ def rule_specials_and_start(ctx: Ctx, rule: str) -> None:
                                 for l in walk_no_nested(it.node))
     ctx.ob(rule, 'glob:Glob._iter/fake-entries', ok, repo.loc('glob', it.node), 'for special in self.specials: yield special, True, True, False',
            f'{len(fake)} fake-entry yield(s)', witness="glob('.*', flags=SCANDOTDIR) returns `.` and `..` as hidden directories, never as links")
+    if fake:
+        q0 = fq(it)
+        withs = [n.id for n in q0.cfg.nodes if n.kind == 'with' and any('os.scandir' in norm_src(i.context_expr) for i in n.ast.items)]
+        okw = bool(withs) and any(q0.cfg.dominates(w, q0.node_of(fake[0])) for w in withs)
+        ctx.ob(rule, 'glob:Glob._iter/fake-entries-after-scandir', okw, repo.loc('glob', fake[0]),
+               'the fake `.`/`..` entries are yielded only after os.scandir succeeded (inside the with block)',
+               'inside the scandir block' if okw else 'yielded before the directory is opened',
+               witness="with a regular file f, glob('f/..') returns ['f/..'] although the path does not exist")
     real = [y for y in ys if y not in fake]
     okr = len(real) == 1 and norm_src(real[0].value) == '(f.name, is_dir, hidden, is_link)'
     q = fq(it)
